@@ -19,7 +19,7 @@ def absorb_groups(prefix, props, cfg="C64"):
                         [AEAD_COMMON, BACKEND_SRC[cfg]], cfg=cfg, enforce=f, replace=["ascon_permute"],
                         defs=["VERIF_ENFORCE_" + f, "VERIF_CALL_" + f, "VERIF_LC_aead_absorb_%d" % R, "VERIF_ABSTRACT_P"],
                         contracts=["contracts/c_permute_abstract.h", "contracts/c_aead_l1.h"],
-                        loop_contracts=True, drop_unused=True, unwind_pre=pre, timeout=1500,
+                        loop_contracts=True, drop_unused=True, unwind_pre=pre, timeout=1500, replay=aead_replay(cfg),
                         expect_classes=["loop_invariant_step", "loop_invariant_base", "assertion", "assigns"]))
     return gs
 
@@ -55,6 +55,95 @@ def crypt_groups(prefix, props, fn, tier, cfg="C64", seed=0, plumbing=False):
                                           "VERIF_ABSTRACT_P", "VERIF_PARTIAL=%d" % p, "VERIF_LEN=%d" % ln] +
                                          (["VERIF_DECRYPT"] if fn == "decrypt" else []) + (["VERIF_ALIAS"] if alias else []),
                                     contracts=["contracts/c_permute_abstract.h", "contracts/c_aead_crypt.h"],
-                                    drop_unused=True, unwind=4 * R + 2, timeout=600,
+                                    drop_unused=True, unwind=4 * R + 2, timeout=600, replay=aead_replay(cfg),
                                     expect_classes=["postcondition", "assigns"]))
+    return gs
+
+AEAD_VARIANTS = {
+    "128": ("SPEC_ASCON128", 16, 8, 6, "src/aead/ascon-aead-128.c"),
+    "128a": ("SPEC_ASCON128A", 16, 16, 4, "src/aead/ascon-aead-128a.c"),
+    "80pq": ("SPEC_ASCON80PQ", 20, 8, 6, "src/aead/ascon-aead-80pq.c"),
+}
+
+AEAD_REPLAY_SRCS = ["src/aead/ascon-aead-128.c", "src/aead/ascon-aead-128a.c", "src/aead/ascon-aead-80pq.c",
+                    "src/aead/ascon-aead-common.c", "src/aead/ascon-aead-inc-128.c", "src/aead/ascon-aead-inc-128a.c",
+                    "src/aead/ascon-aead-inc-80pq.c", "src/aead/ascon-aead-util.c", "src/core/ascon-clean.c"]
+PERM_SRC = {"C64": ["src/core/ascon-c64.c", "src/core/ascon-sliced64.c"], "C32": ["src/core/ascon-c32.c", "src/core/ascon-sliced32.c"],
+            "DX": ["src/core/ascon-c64.c", "src/core/ascon-direct-xor.c"], "GEN": ["src/core/ascon-c64.c", "src/core/ascon-direct-xor.c"]}
+
+
+def aead_replay(cfg="C64"):
+    return {"prog": "replay/r_aead.c", "srcs": AEAD_REPLAY_SRCS + PERM_SRC[cfg]}
+
+
+def aead_l2_groups(prefix, props, op, cfg="C64", alias_variants=("128",)):
+    """L2 one-shot ascon{128,128a,80pq}_aead_{encrypt,decrypt}: every length < 2^40."""
+    gs = []
+    for var, (params, keylen, rate, rnd, src) in AEAD_VARIANTS.items():
+        f = "ascon%s_aead_%s" % (var, op)
+        for alias in ([False, True] if var in alias_variants else [False]):
+            gs.append(Group("%s.l2.%s%s.%s" % (prefix, f, ".inplace" if alias else "", cfg), props,
+                            "harness/h_aead_l2.c", "h_aead_l2", [src, BACKEND_SRC[cfg], "src/core/ascon-clean.c"], cfg=cfg,
+                            enforce=f,
+                            replace=["ascon_permute", "ascon_aead_absorb_%d" % rate, "ascon_aead_%s_%d" % (op, rate)] +
+                                    (["ascon_aead_check_tag"] if op == "decrypt" else []),
+                            defs=["VERIF_L2_FN=" + f, "VERIF_L2_" + op.upper(), "VERIF_L2_PARAMS=" + params,
+                                  "VERIF_L2_KEYLEN=%d" % keylen, "VERIF_L2_RATE=%d" % rate, "VERIF_L2_ROUND=%d" % rnd,
+                                  "VERIF_ABSTRACT_P", "VERIF_L1_SUMMARY"] + (["VERIF_ALIAS"] if alias else []),
+                            contracts=["contracts/c_permute_abstract.h", "contracts/c_aead_l2.h"],
+                            drop_unused=True, unwind=42, timeout=1200, replay=aead_replay(cfg),
+                            expect_classes=["postcondition", "assigns", "precondition"]))
+    return gs
+
+
+def check_tag_groups(prefix, props, tier, cfg="C64"):
+    gs = []
+    n = 64 if tier == "quick" else 512
+    gs.append(Group("%s.l1.ascon_aead_check_tag.result" % prefix, props, "harness/h_check_tag.c", "h_check_tag",
+                    [AEAD_COMMON], cfg=cfg, enforce="ascon_aead_check_tag", defs=["VERIF_MAXLEN=0"],
+                    contracts=["contracts/c_check_tag.h"], drop_unused=True,
+                    unwindset=["ascon_aead_check_tag.0:17", "ascon_aead_check_tag.1:1"],
+                    replay=aead_replay(cfg), expect_classes=["postcondition", "assigns"],
+                    note="exact result for every pair of 16-byte tags (complete: the comparison loop has 16 iterations)"))
+    gs.append(Group("%s.l1.ascon_aead_check_tag.wipe%d" % (prefix, n), props, "harness/h_check_tag.c", "h_check_tag",
+                    [AEAD_COMMON], cfg=cfg, enforce="ascon_aead_check_tag", defs=["VERIF_MAXLEN=%d" % n],
+                    contracts=["contracts/c_check_tag.h"], drop_unused=True, kind="bounded",
+                    bound="plaintext_len <= %d (the wipe loop writes through a moving pointer: no loop contract possible, DESIGN 2.9)" % n,
+                    unwindset=["ascon_aead_check_tag.0:17", "ascon_aead_check_tag.1:%d" % (n + 1)],
+                    replay=aead_replay(cfg), expect_classes=["postcondition", "assigns"], timeout=1800))
+    return gs
+
+INC_SRC = {"128": "src/aead/ascon-aead-inc-128.c", "128a": "src/aead/ascon-aead-inc-128a.c", "80pq": "src/aead/ascon-aead-inc-80pq.c"}
+INC_OPS = ("init", "reinit", "start", "encrypt_block", "encrypt_finalize", "decrypt_block", "decrypt_finalize")
+
+
+def aead_inc_groups(prefix, props, ops=INC_OPS, cfg="C64", alias=True):
+    """L2 contracts of the incremental AEAD API from an arbitrary session object."""
+    gs = []
+    for var, (params, keylen, rate, rnd, _src) in AEAD_VARIANTS.items():
+        for op in ops:
+            f = "ascon%s_aead_%s" % (var, op)
+            variants = [False, True] if (alias and op.endswith("_block")) else [False]
+            for al in variants:
+                repl = ["ascon_permute"]
+                defs = ["VERIF_FN=" + f, "VERIF_INC_" + op, "VERIF_T=ascon%s_state_t" % var, "VERIF_PARAMS=" + params,
+                        "VERIF_KEYLEN=%d" % keylen, "VERIF_RATE=%d" % rate, "VERIF_ROUND=%d" % rnd,
+                        "VERIF_ABSTRACT_P", "VERIF_L1_SUMMARY"] + (["VERIF_ALIAS"] if al else [])
+                srcs = [INC_SRC[var], BACKEND_SRC[cfg], "src/core/ascon-clean.c"]
+                if op == "start":
+                    repl.append("ascon_aead_absorb_%d" % rate)
+                    srcs.append("src/aead/ascon-aead-util.c")
+                if op == "encrypt_block":
+                    repl.append("ascon_aead_encrypt_%d" % rate)
+                    defs.append("VERIF_CRYPT_TAG=%du" % (3 if rate == 8 else 4))
+                if op == "decrypt_block":
+                    repl.append("ascon_aead_decrypt_%d" % rate)
+                    defs.append("VERIF_CRYPT_TAG=%du" % (5 if rate == 8 else 6))
+                if op == "decrypt_finalize":
+                    srcs.append(AEAD_COMMON)   # the real ascon_aead_check_tag, inlined (16 iterations, null plaintext)
+                gs.append(Group("%s.l2.%s%s.%s" % (prefix, f, ".inplace" if al else "", cfg), props,
+                                "harness/h_aead_inc.c", "h_aead_inc", srcs, cfg=cfg, enforce=f, replace=repl, defs=defs,
+                                contracts=["contracts/c_permute_abstract.h", "contracts/c_aead_inc.h"],
+                                drop_unused=True, unwind=42, timeout=900, replay=aead_replay(cfg),
+                                expect_classes=["postcondition", "assigns"]))
     return gs
